@@ -77,6 +77,11 @@ if __name__ == '__main__':
         # multiply/divide kernels: mathematical integers with explicit wrap conditions (see mirsym.MODE); everything else 64-bit bit-vectors
         mode = 'int' if sc.startswith(('chunks.', 'unchunk.')) else 'bv'
         os.environ.pop('MIRSYM_INDUCTIVE', None)
+        os.environ.pop('MIRSYM_ORDER', None)
+        full_name = sc
+        if sc.startswith('order.'):      # C08: the same scenario with the once-per-index / in-order obligations switched on
+            os.environ['MIRSYM_ORDER'] = '1'
+            sc = sc[len('order.'):]
         if sc.endswith('@ind'):
             os.environ['MIRSYM_INDUCTIVE'] = 'strict'
             sc_run = sc[:-4]
@@ -92,5 +97,5 @@ if __name__ == '__main__':
         if sc.endswith('@ind'):
             r.bounds = 'ALL 64-bit N: the pipeline\'s internal iteration is summarised by an automatically instantiated and solver-checked loop invariant (induction over the iteration number) instead of unrolling; ' + r.bounds.replace('N <= %d' % nmax, 'no bound on N')
         r.bounds += ' [numeric back-end: %s]' % ('mathematical integers in [0, 2^64) with explicit wrap conditions' if mode == 'int' else '64-bit bit-vectors')
-        r.name = sc
+        r.name = full_name
         print(json.dumps(r.to_dict()), flush=True)
